@@ -991,6 +991,23 @@ class Sym:
             if s2 is not None:
                 out.append((s2, False))
             return out
+        if k == "Slice" and pat.get("slice") is not None and not pat.get("suffix") and len(pat.get("prefix") or []) == 1 \
+                and pat["prefix"][0].get("k") in ("Bind", "Wild") and pat["slice"].get("k") in ("Bind", "Wild"):
+            # `[first, rest @ ..]`: the slice is not empty; first = x[0], rest = x[1..]
+            out = []
+            s0 = st.with_cond(("empty", t), True)
+            if s0 is not None:
+                out.append((s0, False))
+            s1 = st.with_cond(("empty", t), False)
+            if s1 is not None:
+                cur = self.pmatch(pat["prefix"][0], ("index", t, lit_int(0)), s1)
+                for s2, ok2 in cur:
+                    if not ok2:
+                        out.append((s2, False))
+                        continue
+                    rest_t = ("call", "std::ops::Index::index", (t, ("adt", "RangeFrom", "RangeFrom", (("start", lit_int(1)),))))
+                    out += self.pmatch(pat["slice"], rest_t, s2)
+            return out
         if k == "Const":
             lit = parse_const(pat["v"], pat.get("ty", ""))
             atom = ("eq", t, lit)
